@@ -79,6 +79,16 @@ pub fn all_orders(root: &Path, es: &[Entry]) -> Vec<HashMap<PathBuf, Vec<OsStrin
     }
     let mut ds = Vec::new();
     dirs(root.to_path_buf(), es, &mut ds);
+    if ds.len() > 12 {
+        // very deep trees: the identity and the fully reversed listing only
+        let mut fwd = HashMap::new();
+        let mut rev = HashMap::new();
+        for (path, names) in ds {
+            fwd.insert(path.clone(), names.iter().map(|n| OsString::from(*n)).collect());
+            rev.insert(path, names.iter().rev().map(|n| OsString::from(*n)).collect());
+        }
+        return vec![fwd, rev];
+    }
     let mut tables: Vec<HashMap<PathBuf, Vec<OsString>>> = vec![HashMap::new()];
     for (path, names) in ds {
         let perms = permutations(names.len());
@@ -182,6 +192,7 @@ pub const SRC_P: &str = "pragma solidity ^0.8.0;\ncontract A {\n  function f(uin
 pub const SRC_P2: &str = "\n\npragma solidity ^0.8.0;\ncontract A {\n  function f(uint256 a) public payable returns (uint256) {\n    return a + 1;\n  }\n  constructor() {}\n}\n";
 pub const SRC_PQ: &str = "pragma solidity ^0.8.0;\ncontract B {\n  uint256 private hidden;\n  function g(uint256 a, uint256 b, address t) public payable returns (bool) {\n    IERC20(t).transfer(t, a - b);\n    return a >= b;\n  }\n  constructor() {}\n}\n";
 pub const SRC_SUICIDE: &str = "pragma solidity 0.8.19;\ncontract K {\n  function kill(address payable to) external {\n    suicide(to);\n  }\n}\n";
+pub const SRC_SPACED: &str = "pragma solidity ^0.8.0;\ncontract Sp {\n  function g(address t, uint256 a) public payable {\n    IERC20(t) .\n      transfer(t, a - 1);\n    IERC20(t) . /* c */ approve(t, a);\n  }\n}\n";
 pub const SRC_NONE: &str = "pragma solidity 0.8.19;\ncontract N {\n}\n";
 pub const GARBAGE: &[u8] = b"this is { not solidity ))) \n";
 pub const NON_UTF8: &[u8] = &[0xff, 0xfe, 0x00, 0x80, b'\n', 0xc3];
@@ -305,9 +316,25 @@ pub fn c03(tier: Tier) -> i32 {
         file("x.txt", GARBAGE),
         file("A.sol", SRC_P2.as_bytes()),
         file("K.sol", SRC_SUICIDE.as_bytes()),
+        file(".sol", SRC_PQ.as_bytes()),
+        file("S.sol", SRC_SPACED.as_bytes()),
     ];
     let budget = if tier == Tier::Quick { 4 } else { 6 };
     let trees = gen_dirs(&alphabet, 2, budget);
+    let mut trees = trees;
+    // eligible files at every depth of a long chain of directories (no depth bound in the property)
+    for depth in [33usize, 40, 70] {
+        let mut cur: Vec<Entry> = vec![file("Deep.sol", SRC_PQ.as_bytes())];
+        for k in (0..depth).rev() {
+            let mut children = cur;
+            if k % 8 == 0 {
+                children.push(file(&format!("L{}.sol", k), SRC_P.as_bytes()));
+            }
+            cur = vec![Entry::Dir { name: "d".into(), children }];
+        }
+        cur.push(file("Top.sol", SRC_P2.as_bytes()));
+        trees.push(cur);
+    }
     let sels = selections(tier);
     let res = util::par_map(trees.len(), |ti| {
         let tree = &trees[ti];
@@ -577,7 +604,7 @@ pub fn c16(tier: Tier) -> i32 {
     let mut trees: Vec<Vec<Entry>> = Vec::new();
     let wrap = |es: Vec<Entry>, depth: usize| -> Vec<Entry> {
         // directory names rotate over ordinary, hidden and source-like names
-        let dn = [".deps", "d1", "lib.sol"][es.iter().map(|e| e.name().len()).sum::<usize>() % 3];
+        let dn = [".deps", "d1", "lib.sol", "h.t.sol"][es.iter().map(|e| e.name().len()).sum::<usize>() % 4];
         match depth {
             0 => es,
             1 => vec![Entry::Dir { name: dn.into(), children: es }],
@@ -602,6 +629,21 @@ pub fn c16(tier: Tier) -> i32 {
         for e in &elig {
             trees.push(wrap(vec![e.clone()], depth));
         }
+    }
+    // an eligible file 70 directories deep next to ineligible ones on the way down
+    {
+        let mut cur: Vec<Entry> = vec![elig[0].clone(), inelig[3].clone()];
+        for k in (0..70).rev() {
+            let mut children = cur;
+            if k % 10 == 0 {
+                children.push(inelig[(k * 7) % inelig.len()].clone());
+            }
+            // names must stay unique within a directory
+            let mut seen = HashSet::new();
+            children.retain(|e| seen.insert(e.name().to_string()));
+            cur = vec![Entry::Dir { name: "n".into(), children }];
+        }
+        trees.push(cur);
     }
     let step = if tier == Tier::Quick { 7 } else { 2 };
     for (a, i) in inelig.iter().enumerate() {
@@ -984,4 +1026,44 @@ pub fn dir_layout_check(progs: &[crate::synth::Prog], property: &str) -> (Vec<Vi
         states += s;
     }
     (vs, states, states * 3)
+}
+
+/// Directory level equals file level: each text is written as the only file of a directory and the
+/// result of `analyze_dir` must equal the per-file results (used with spellings that a textual
+/// shortcut in the directory walk could trip over).
+pub fn dir_equals_file(texts: &[(String, String)], sel_names: (&[&str], &[&str], &[&str])) -> (Vec<Violation>, u64) {
+    let sel = || Selection {
+        opts: sel_names.0.iter().map(|n| opt::str_to_optimization(n)).collect(),
+        vulns: sel_names.1.iter().map(|n| vul::str_to_vulnerability(n)).collect(),
+        qas: sel_names.2.iter().map(|n| qa::str_to_qa(n)).collect(),
+    };
+    let res = util::par_map(texts.len(), |i| {
+        let (label, text) = &texts[i];
+        let root = worker_root("direq");
+        let _ = std::fs::remove_dir_all(&root);
+        let tree = vec![Entry::Dir { name: "src".into(), children: vec![file("Only.sol", text.as_bytes())] }];
+        materialise(&root, &tree);
+        let s = sel();
+        let got = run_analyze_dir(&root, &s);
+        let want = per_file_union(&tree, &s);
+        let _ = std::fs::remove_dir_all(&root);
+        if got != want {
+            Some(Violation {
+                site: "analyze_dir:differs-from-file-level".into(),
+                input: format!("{}: {:?}", label, text),
+                expected: "the directory result for the file equals analysing the file on its own".into(),
+                observed: match (&got, &want) {
+                    (Ok(g), Ok(w)) => diff_findings(g, w),
+                    _ => format!("{:?} vs {:?}", got.is_ok(), want.is_ok()),
+                },
+                size: text.len(),
+                unit_test: String::new(),
+                extra: json!({}),
+            })
+        } else {
+            None
+        }
+    });
+    let n = res.len() as u64;
+    (res.into_iter().flatten().collect(), n)
 }
